@@ -57,20 +57,28 @@ def generate(rng, tier):
     for n in range(0, 14 if tier == "quick" else 40):
         for i in range(-1, n + 2):
             yield f"index {n} {i}", "parse-index"
+    # files that end part-way through a packet (or a header): the complete packets are listed, nothing else happens
+    for n in (1, 2, 5, 10, 11, 12):
+        for c in (1, 2, 6, 7, 8, 13):
+            if c <= 7 * n:
+                yield f"rowscut {n} {c}", "describe-truncated"
+                k = (7 * n - c) // 7
+                for i in (0, k - 1, k, k + 1):
+                    yield f"indexcut {n} {c} {i}", "parse-truncated"
 
 
 # packet i carries sequence count BASE + i (the listing is read back through that column); the counts cross 8191 -> 8192
 BASE = 8186
 
 
-def packet_file(n, d):
+def packet_file(n, d, cut=0):
     import random
     rng = random.Random(n)
     data = b"".join(pu.mk_packet(rng, 1, sc=BASE + i, apid=100 + (i % 3) * 700, sf=i % 4, ver=i % 8, typ=i % 2,
                                  shf=(i // 2) % 2) for i in range(n))
     p = os.path.join(d, f"p{n}.bin")
     with open(p, "wb") as f:
-        f.write(data)
+        f.write(data[:len(data) - cut])
     return p
 
 
@@ -81,15 +89,20 @@ def impl(line):
     if t[0] == "const":
         return f"ok {cli.MAX_ROWS} {cli.HEAD_ROWS}"
     n = int(t[1])
+    cut = 0
+    if t[0] in ("rowscut", "indexcut"):
+        cut = int(t[2])
+        t = [t[0][:-3], t[1]] + t[3:]
+    complete = (7 * n - cut) // 7
     runner = CliRunner()
     with tempfile.TemporaryDirectory() as d:
-        pf = packet_file(n, d)
+        pf = packet_file(n, d, cut)
         if t[0] == "rows":
             res = runner.invoke(cli.spp, ["-q", "describe-packets", pf], terminal_width=200)
             if res.exception is not None and not isinstance(res.exception, SystemExit):
                 return f"err traceback !{type(res.exception).__name__}"
             out = res.output
-            if n == 0:
+            if complete == 0:
                 return "rows" if "No packets found" in out else "err no-message"
             rows = []
             for ln in out.splitlines():
